@@ -42,6 +42,7 @@ struct Sess {
     delays: Vec<(&'static str, usize, u64)>,
     set_ops: bool,          // C10 sessions: the accepted output is the selected set, not the list
     end: u8,                // C05 sessions: how the session is ended (0 = select-all + accept by the harness)
+    tiebreak: Option<String>, // C13 sessions: the --tiebreak option ("-" in a spec = option absent)
 }
 
 const WORDS: [&str; 14] = ["ab", "ba", "abc", "cab", "bca", "aa", "bb", "c", "acb", "xyz", "axb", "b", "a b", "b a c"];
@@ -69,7 +70,7 @@ fn gen_c10(r: &mut Rng) -> Sess {
     let mut delays = Vec::new();
     for _ in 0..r.below(3) { delays.push((*r.pick(&POINTS), 1 + r.below(4) as usize, *r.pick(&[5u64, 30, 120]))); }
     Sess { items, timeline, init_query: r.pick(&["", "a", "b", "ab"]).to_string(), exact: r.chance(1, 2), select1: false, exit0: false, sync: false,
-           header_lines: if r.chance(1, 4) { 1 + r.below(2) as usize } else { 0 }, no_clear_if_empty: false, delays, set_ops: true, end: 0 }
+           header_lines: if r.chance(1, 4) { 1 + r.below(2) as usize } else { 0 }, no_clear_if_empty: false, delays, set_ops: true, end: 0, tiebreak: None }
 }
 
 fn gen_c05(r: &mut Rng) -> Sess {
@@ -81,11 +82,26 @@ fn gen_c05(r: &mut Rng) -> Sess {
     for _ in 0..r.below(4) { timeline.push((*r.pick(&[0u64, 5, 20]), if r.chance(2, 3) { Act::Add(*r.pick(&['a', 'b', 'c', 'x'])) } else { Act::Back })); }
     timeline.push((0, Act::Settle));
     Sess { items, timeline, init_query: r.pick(&["", "", "a", "ab"]).to_string(), exact: true, select1: false, exit0: false, sync: false,
-           header_lines: 0, no_clear_if_empty: false, delays: vec![], set_ops: false, end: 1 + r.below(9) as u8 }
+           header_lines: 0, no_clear_if_empty: false, delays: vec![], set_ops: false, end: 1 + r.below(9) as u8, tiebreak: None }
+}
+
+fn gen_c13(r: &mut Rng) -> Sess {
+    let n_items = 2 + r.below(11) as usize;
+    let items: Vec<String> = (0..n_items).map(|i| format!("{}{}{}{}", "x".repeat(r.below(4) as usize), r.pick(&WORDS), "y".repeat(r.below(3) as usize), i)).collect();
+    let mut timeline = vec![(0, Act::Feed(n_items)), (0, Act::Eof)];
+    for _ in 0..r.below(2) { timeline.push((5, Act::Add(*r.pick(&['a', 'b'])))); }
+    timeline.push((0, Act::Settle));
+    let tiebreak = match r.below(14) {
+        0 => None,
+        k => Some(["foo", "", "index,bar", "begin", "-begin", "length", "-length,begin", "end", "score,-end", "foo,length", "-score", "begin,begin,length", "LENGTH"][k as usize - 1].to_string()),
+    };
+    Sess { items, timeline, init_query: r.pick(&["a", "b", "ab", ""]).to_string(), exact: r.chance(1, 2), select1: false, exit0: false, sync: false,
+           header_lines: 0, no_clear_if_empty: false, delays: vec![], set_ops: false, end: 1, tiebreak }
 }
 
 fn gen(r: &mut Rng, focus: &str) -> Sess {
     if focus == "C10" { return gen_c10(r); }
+    if focus == "C13" { return gen_c13(r); }
     if focus == "C05" { return gen_c05(r); }
     let c14 = focus == "C14";
     let n_runs = if focus == "C01" { match r.below(20) { 0..=13 => 1, 14..=18 => 2, _ => 3 } } else { 1 };
@@ -152,6 +168,7 @@ fn gen(r: &mut Rng, focus: &str) -> Sess {
         delays,
         set_ops: false,
         end: 0,
+        tiebreak: None,
     }
 }
 
@@ -174,7 +191,7 @@ fn leak(s: &str) -> &'static str {
 
 /// `items=ab0,cab1;tl=0:F2,5:E,10:+a,0:-,0:R,0:H;q=ab;exact=1;s1=1;e0=0;sync=0;hl=0;ncie=0;delays=m.take:1:60`
 fn parse_spec(spec: &str) -> Sess {
-    let mut s = Sess { items: vec![], timeline: vec![], init_query: String::new(), exact: false, select1: false, exit0: false, sync: false, header_lines: 0, no_clear_if_empty: false, delays: vec![], set_ops: false, end: 0 };
+    let mut s = Sess { items: vec![], timeline: vec![], init_query: String::new(), exact: false, select1: false, exit0: false, sync: false, header_lines: 0, no_clear_if_empty: false, delays: vec![], set_ops: false, end: 0, tiebreak: None };
     for kv in spec.split(';') {
         let (k, v) = kv.split_once('=').unwrap_or((kv, ""));
         match k {
@@ -207,6 +224,7 @@ fn parse_spec(spec: &str) -> Sess {
             "ncie" => s.no_clear_if_empty = v == "1",
             "setops" => s.set_ops = v == "1",
             "end" => s.end = v.parse().unwrap_or(0),
+            "tb" => s.tiebreak = if v == "-" { None } else { Some(v.replace('+', ",")) },
             "delays" => {
                 for e in v.split(',').filter(|x| !x.is_empty()) {
                     let p: Vec<&str> = e.split(':').collect();
@@ -223,8 +241,9 @@ fn spec_of(s: &Sess) -> String {
     let tl: Vec<String> = s.timeline.iter().map(|(d, a)| format!("{}:{}", d, match a {
         Act::Feed(k) => format!("F{}", k), Act::Eof => "E".into(), Act::Add(c) => format!("+{}", c), Act::Back => "-".into(), Act::Rotate => "R".into(), Act::Hb => "H".into(), Act::Cmd => "C".into(), Act::Settle => "S".into(), Act::SelAll => "A".into(), Act::TogAll => "T".into(), Act::DeselAll => "D".into() })).collect();
     let dl: Vec<String> = s.delays.iter().map(|(n, k, ms)| format!("{}:{}:{}", n, k, ms)).collect();
-    format!("items={};tl={};q={};exact={};s1={};e0={};sync={};hl={};ncie={};setops={};end={};delays={}", s.items.join(","), tl.join(","), s.init_query,
-        s.exact as u8, s.select1 as u8, s.exit0 as u8, s.sync as u8, s.header_lines, s.no_clear_if_empty as u8, s.set_ops as u8, s.end, dl.join(","))
+    format!("items={};tl={};q={};exact={};s1={};e0={};sync={};hl={};ncie={};setops={};end={};tb={};delays={}", s.items.join(","), tl.join(","), s.init_query,
+        s.exact as u8, s.select1 as u8, s.exit0 as u8, s.sync as u8, s.header_lines, s.no_clear_if_empty as u8, s.set_ops as u8, s.end,
+        s.tiebreak.as_ref().map(|t| t.replace(',', "+")).unwrap_or_else(|| "-".to_string()), dl.join(","))
 }
 
 fn subseq(q: &str, s: &str) -> bool {
@@ -303,6 +322,7 @@ fn run(s: &Sess) -> Outcome {
             .sync(s2.sync)
             .header_lines(s2.header_lines)
             .no_clear_if_empty(s2.no_clear_if_empty)
+            .tiebreak(s2.tiebreak.clone())
             .build()
             .unwrap();
         V::run_session(&options, None, move |tx| {
@@ -981,7 +1001,25 @@ fn run_case(seed: u64, id: u64, focus: &str, spec: Option<&String>, out: &mut Ve
             if o.output != want { bad = Some(format!("after the select-all / toggle-all / deselect-all history and re-filtering the accepted items are {:?}, the selected set is {:?}", o.output, want)); }
         } else if o.output.len() > 1 { bad = Some(format!("nothing is selected but {:?} was accepted", o.output)); }
     }
-    if s.end > 0 {
+    if s.tiebreak.is_some() || focus == "C13" {
+        // C13 end to end: the item on the cursor row of a fresh list is a best-ranked one under the criteria
+        // the option stands for (names split at commas, unknown ones ignored; absent option: score, begin, end)
+        let crit: Vec<V::RankCriteria> = match &s.tiebreak {
+            Some(t) => t.split(',').filter_map(V::parse_criteria).collect(),
+            None => vec![V::RankCriteria::Score, V::RankCriteria::Begin, V::RankCriteria::End],
+        };
+        let rb = Arc::new(V::RankBuilder::new(crit));
+        let f = ExactOrFuzzyEngineFactory::builder().exact_mode(s.exact).rank_builder(rb).build();
+        let eng = AndOrEngineFactory::new(f).create_engine_with_case(&o.final_query, CaseMatching::default());
+        let ranks: Vec<(String, [i32; 4])> = s.items.iter().filter_map(|t| eng.match_item(Arc::new(t.clone()) as Arc<dyn SkimItem>).map(|m| (t.clone(), m.rank))).collect();
+        out.push(format!("{}\tdist\ttiebreak={}", id, s.tiebreak.clone().unwrap_or_else(|| "(absent)".to_string())));
+        if let Some(best) = ranks.iter().map(|x| x.1).min() {
+            match o.output.first().and_then(|t| ranks.iter().find(|x| &x.0 == t)) {
+                Some((t, rk)) => if *rk != best { bad = Some(format!("--tiebreak {:?}: the first row holds {:?} with key {:?}, the best key is {:?} ({:?})", s.tiebreak, t, rk, best, ranks.iter().find(|x| x.1 == best).map(|x| &x.0))); },
+                None => bad = Some(format!("--tiebreak {:?}: accepted {:?}, which is not a matching item", s.tiebreak, o.output)),
+            }
+        }
+    } else if s.end > 0 {
         // C05: the result carries the query as edited and the key / event that ended the session; abort is abort
         let q = &o.final_query;
         let n_match = exp.len();
